@@ -40,6 +40,92 @@ _UPGEN = ['lattices.upset_generalization']
 _CXTCH = ['lemma.cxt.roundtrip', 'formats.cxt.Cxt.loadf.written']
 _FCBO_P = ['fcbo.fast_generate_from.complete', 'fcbo.fast_generate_from']
 _FCBO_O = ['fcbo.fcbo_dual.complete', 'fcbo.fcbo_dual']
+_SHA_FOR = "        for data in iter(functools.partial(f.read, bufsize), b''):\n            h.update(data)"
+_SHA_WHILE = "        while True:\n%s"
+_TLF = ['formats.table.load_file', 'formats.table.load_file.written']
+_TLF_HEAD = ("def load_file(file):\n    lines = (line.partition('#')[0].strip() for line in file)\n    lines = list(filter(None, lines))\n"
+             "    properties = [p.strip() for p in lines[0].strip('|').split('|')]\n")
+_TLF_OLD = _TLF_HEAD + ("    table = [(obj.strip(),\n        tuple(bool(f.strip()) for f in flags.strip('|').split('|')))\n        for obj, flags in\n"
+                        "            (objflags.partition('|')[::2] for objflags in lines[1:])]\n    objects, bools = zip(*table)\n")
+_TLF_ROWS = ("    for objflags in lines:\n        obj, _, flags = objflags.partition('|')\n        yield (obj.strip(),\n"
+             "               tuple(bool(f.strip()) for f in flags.strip('|').split('|')))")
+
+
+def _tlf(helper_body, rows_expr):
+    """table.load_file with the object rows computed by the module-level helper iter_object_rows (seeded/refactorings/R14-R2.diff)"""
+    return 'def iter_object_rows(lines):\n%s\n\n\n%s    objects, bools = %s\n' % (helper_body, _TLF_HEAD, rows_expr)
+
+_UI_OLD = ("        self._seen = seen = set()\n        add = seen.add\n        self._items = [item for item in iterable\n"
+           "                       if item not in seen and not add(item)]")
+_UI_LOOP = "        self._seen = seen = set()\n        self._items = items = []\n        for item in iterable:\n%s"
+_UR_OLD = ("        seen = set()\n        add = seen.add\n        items = [i for i in items\n"
+           "                 if i not in ignore and i not in seen and not add(i)]\n        return self._fromargs(seen, items)")
+_UR_LOOP = "        seen = set()\n        result = []\n        for i in items:\n%s\n        return self._fromargs(%s)"
+_SUP_OLD = "        return all(map(self._seen.__contains__, items))\n"
+
+
+def _sup(body, ret='result', init='True'):
+    return "        result = %s\n        for item in items:\n%s        return %s\n" % (init, body, ret)
+
+_LIN_NEW = "                mapping[n_extent] = neighbor = (n_extent, n_intent, [], [extent])\n                push((n_extent.shortlex(), neighbor))\n"
+_LIN_OLD = "            if n_extent in mapping:\n                mapping[n_extent][3].append(extent)\n            else:\n" + _LIN_NEW
+
+
+def _lin(look='mapping[n_extent]', exc='KeyError', handler=_LIN_NEW, els="                known[3].append(extent)\n"):
+    return "            try:\n                known = %s\n            except %s:\n%s            else:\n%s" % (look, exc, handler, els)
+
+_LIW_BODY = ("            c.index = index\n            upper = (mapping[u] for u in c.upper_neighbors)\n            lower = (mapping[l] for l in c.lower_neighbors)\n"
+             "            c.upper_neighbors = tuple(sorted(upper, key=shortlex))\n            c.lower_neighbors = tuple(sorted(lower, key=longlex))\n")
+_LIW_TAIL = "\n        self._init(self, context, concepts, mapping=mapping)"
+_LIW_OLD = "        for index, c in enumerate(concepts):\n" + _LIW_BODY + _LIW_TAIL
+
+
+def _liw(init="        index = 0\n", test="index < len(concepts)", fetch="            c = concepts[index]\n", body=_LIW_BODY, step="            index += 1\n"):
+    return init + "        while " + test + ":\n" + fetch + body + step + _LIW_TAIL
+
+_REL_CHAIN = "        members = chain(unary, binary) if include_unary else binary\n\n        super().__init__(members)\n"
+_REL_OLD = _REL_CHAIN + "        self.sort(key=lambda r: r.order)\n"
+
+
+def _rel(init="        super().__init__()\n", first="        if include_unary:\n            for member in unary:\n                self.append(member)\n",
+         second="        for member in binary:\n            self.append(member)\n", sort="        self.sort(key=lambda r: r.order)\n"):
+    return init + first + second + sort
+
+_TDF = ['formats.table.dump_file', 'formats.table.dump_file.chars']
+_TDF_OLD = "    for o, intent in zip(objects, bools):\n        write(tmpl % ((o,) + tuple('X' if b else '' for b in intent)))\n"
+
+
+def _tdf(cell="('', 'X')[bool(b)]", head="    for o, intent in zip(objects, bools):\n", use="o", it="intent"):
+    return head + "        write(tmpl %% ((%s,) + tuple(%s for b in %s)))\n" % (use, cell, it)
+
+_TDG_HEAD = ("def dump_file(file, objects, properties, bools, *, indent=0, _serialized=None):\n    wd = [tools.max_len(objects)]\n    wd.extend(map(len, properties))\n"
+             "    tmpl = ' ' * indent + '|'.join(f'%-{w:d}s' for w in wd) + '|'\n\n    write = functools.partial(print, file=file)\n"
+             "    write(tmpl % (('',) + tuple(properties)))\n")
+_TDG_OLD = _TDG_HEAD + _TDF_OLD
+_TDG_HELPER = "    for o, intent in zip(objects, bools):\n        yield tmpl % ((o,) + tuple('X' if b else '' for b in intent))"
+
+
+def _tdg(helper=_TDG_HELPER, loop="    for line in iter_row_lines(tmpl, objects, bools):\n        write(line)\n"):
+    return "def iter_row_lines(tmpl, objects, bools):\n" + helper + "\n\n\n" + _TDG_HEAD + loop
+
+
+def _tls(helper="    yield lines[0]\n    yield lines[1:]", call="tuple(split_header(lines))", order="header, object_lines"):
+    """table.load_file with the header line and the object lines from the generator helper split_header (seeded/refactorings/H18)"""
+    body = _TLF_OLD.replace("    properties = [p.strip() for p in lines[0].strip('|').split('|')]\n",
+                            "    %s = %s\n    properties = [p.strip() for p in header.strip('|').split('|')]\n" % (order, call))
+    body = body.replace("(objflags.partition('|')[::2] for objflags in lines[1:])]", "(objflags.partition('|')[::2] for objflags in object_lines)]")
+    return "def split_header(lines):\n" + helper + "\n\n\n" + body
+
+
+_RMI_BODY = ("            pattern = frozenset(p for p, f in zip(properties, symbols) if f)\n            ns = {'index': index, 'order': int(order),\n"
+             "                  'kind': name.lower(), 'symbol': symbol, 'pattern': pattern}\n            cls = type(name, (self,), ns)\n"
+             "            globals()[cls.__name__] = self.__map[pattern] = cls\n            __all__.append(cls.__name__)\n")
+_RMI_OLD = "        for index, ((name, symbol, order), symbols) in enumerate(obj_flags):\n" + _RMI_BODY
+
+
+def _rmi(init="        index = 0\n", test="index < len(obj_flags)", fetch="obj_flags[index]", step="            index += 1\n"):
+    return init + "        while " + test + ":\n            (name, symbol, order), symbols = " + fetch + "\n" + _RMI_BODY + step
+
 
 MUTANTS = [
     # (file, old, new, units, 'breaks'|'equivalent')
@@ -755,6 +841,138 @@ MUTANTS = [
     # -- FCbO: renamed locals (the `use lemma` instances hang on the read of the failed set / of the context line, not on a name)
     (FC, '            x = next_property_sets[j] & j_mask\n\n            if x & intent == x:', '            inherited = next_property_sets[j] & j_mask\n\n            if inherited & intent == inherited:', _FCBO_P, 'equivalent'),
     (FC, '            x = next_object_sets[j] & j_mask\n\n            if x & extent == x:', '            inherited = next_object_sets[j] & j_mask\n\n            if inherited & extent == inherited:', _FCBO_O, 'equivalent'),
+    # robustness round 5 (seeded/REFACTORINGS.md): `break` in contract loops, generator helpers executed in place, set-accumulator loops, ...
+    # -- tools.sha256sum: the chunk loop spelled with `while True ... break` / with an assignment expression; the clause is about the
+    #    chunks READ (ghost position of the file), a break on the wrong read, a skipped or doubled read are caught in every spelling
+    (TL, _SHA_FOR, _SHA_WHILE % ("            data = f.read(bufsize)\n            if data == b'':\n                break\n            h.update(data)"), ['tools.sha256sum'], 'equivalent'),
+    (TL, _SHA_FOR, _SHA_WHILE % ("            data = f.read(bufsize)\n            if not data:\n                break\n            h.update(data)"), ['tools.sha256sum'], 'equivalent'),
+    (TL, _SHA_FOR, _SHA_WHILE % ("            data = f.read(bufsize)\n            if data != b'':\n                h.update(data)\n            else:\n                break"), ['tools.sha256sum'], 'equivalent'),
+    (TL, _SHA_FOR, "        while data := f.read(bufsize):\n            h.update(data)", ['tools.sha256sum'], 'equivalent'),
+    (TL, _SHA_FOR, _SHA_WHILE % ("            data = f.read(bufsize)\n            if data != b'':\n                break\n            h.update(data)"), ['tools.sha256sum'], 'breaks'),
+    (TL, _SHA_FOR, _SHA_WHILE % ("            data = f.read(bufsize)\n            if data == b'':\n                break\n            data = f.read(bufsize)\n            h.update(data)"), ['tools.sha256sum'], 'breaks'),
+    (TL, _SHA_FOR, _SHA_WHILE % ("            data = f.read(bufsize)\n            if data == b'':\n                pass\n            h.update(data)"), ['tools.sha256sum'], 'breaks'),
+    (TL, _SHA_FOR, _SHA_WHILE % ("            data = f.read(bufsize)\n            if data == b'':\n                break\n            h.update(data)\n            break"), ['tools.sha256sum'], 'breaks'),
+    (TL, _SHA_FOR, "        f.read(bufsize)\n" + _SHA_WHILE % ("            data = f.read(bufsize)\n            if not data:\n                break\n            h.update(data)"), ['tools.sha256sum'], 'breaks'),
+    (TL, _SHA_FOR, _SHA_WHILE % ("            data = f.read(1024)\n            if data == b'':\n                break\n            h.update(data)"), ['tools.sha256sum'], 'breaks'),
+    (TL, _SHA_FOR, "        while not (data := f.read(bufsize)):\n            h.update(data)", ['tools.sha256sum'], 'breaks'),
+    (TL, _SHA_FOR, "        while data := f.read(bufsize):\n            h.update(data)\n            h.update(data)", ['tools.sha256sum'], 'breaks'),
+    (TL, _SHA_FOR, _SHA_FOR + "\n            f.read(bufsize)", ['tools.sha256sum'], 'breaks'),
+    # -- table.load_file: the rows computed by a module-level GENERATOR helper consumed at the call site (engine: call_generator_helper);
+    #    the helper is part of the verified text: the wrong tuple, the wrong part of the line, the wrong slice at the call are caught
+    (FTB, _TLF_OLD, _tlf(_TLF_ROWS, 'zip(*iter_object_rows(lines[1:]))'), _TLF, 'equivalent'),
+    (FTB, _TLF_OLD, _tlf(_TLF_ROWS, 'zip(*list(iter_object_rows(lines[1:])))'), _TLF, 'equivalent'),
+    (FTB, _TLF_OLD, _tlf(_TLF_ROWS, 'zip(*tuple(iter_object_rows(lines[1:])))'), _TLF, 'equivalent'),
+    (FTB, _TLF_OLD, _tlf("    table = []\n    for objflags in lines:\n        obj, _, flags = objflags.partition('|')\n        table.append((obj.strip(),\n"
+                         "               tuple(bool(f.strip()) for f in flags.strip('|').split('|'))))\n    return table",
+                         'zip(*iter_object_rows(lines[1:]))'), _TLF, 'equivalent'),
+    (FTB, _TLF_OLD, _tlf(_TLF_ROWS.replace("(obj.strip(),\n               tuple(bool(f.strip()) for f in flags.strip('|').split('|')))",
+                                           "(tuple(bool(f.strip()) for f in flags.strip('|').split('|')), obj.strip())"),
+                         'zip(*iter_object_rows(lines[1:]))'), _TLF, 'breaks'),
+    (FTB, _TLF_OLD, _tlf(_TLF_ROWS.replace('yield (obj.strip(),', 'yield (obj,'), 'zip(*iter_object_rows(lines[1:]))'), _TLF, 'breaks'),
+    (FTB, _TLF_OLD, _tlf(_TLF_ROWS.replace('obj, _, flags =', 'obj, flags, _ ='), 'zip(*iter_object_rows(lines[1:]))'), _TLF, 'breaks'),
+    (FTB, _TLF_OLD, _tlf(_TLF_ROWS.replace("flags.strip('|')", "flags"), 'zip(*iter_object_rows(lines[1:]))'), _TLF, 'breaks'),
+    (FTB, _TLF_OLD, _tlf(_TLF_ROWS, 'zip(*iter_object_rows(lines))'), _TLF, 'breaks'),
+    (FTB, _TLF_OLD, _tlf(_TLF_ROWS, 'zip(*iter_object_rows(lines[2:]))'), _TLF, 'breaks'),
+    (FTB, _TLF_OLD, _tlf(_TLF_ROWS + "\n        yield (obj.strip(), ())", 'zip(*iter_object_rows(lines[1:]))'), _TLF, 'breaks'),
+    # -- tools.Unique.__init__ / Unique.rsub: the side-effecting list comprehension spelled as a loop that fills `seen` and a list; the
+    #    `comprehension_loops` clause keyed ListComp#0 is about the iteration and runs on either spelling (engine: comprehension_spec_loop)
+    (TL, _UI_OLD, _UI_LOOP % "            if item not in seen:\n                seen.add(item)\n                items.append(item)", ['tools.Unique.__init__'], 'equivalent'),
+    (TL, _UI_OLD, _UI_LOOP % "            if item in seen:\n                continue\n            seen.add(item)\n            items.append(item)", ['tools.Unique.__init__'], 'equivalent'),
+    (TL, _UI_OLD, "        seen = set()\n        items = []\n        for item in iterable:\n            if item not in seen:\n                seen.add(item)\n                items.append(item)\n        self._seen = seen\n        self._items = items", ['tools.Unique.__init__'], 'equivalent'),
+    (TL, _UI_OLD, _UI_LOOP % "            if item not in seen:\n                items.append(item)", ['tools.Unique.__init__'], 'breaks'),
+    (TL, _UI_OLD, _UI_LOOP % "            if item not in seen:\n                seen.add(item)\n            items.append(item)", ['tools.Unique.__init__'], 'breaks'),
+    (TL, _UI_OLD, _UI_LOOP % "            if item in seen:\n                seen.add(item)\n                items.append(item)", ['tools.Unique.__init__'], 'breaks'),
+    (TL, _UI_OLD, _UI_LOOP % "            if item not in seen:\n                seen.add(item)\n                items.insert(0, item)", ['tools.Unique.__init__'], 'breaks'),
+    (TL, _UI_OLD, _UI_LOOP % "            seen.add(item)\n            if item not in seen:\n                items.append(item)", ['tools.Unique.__init__'], 'breaks'),
+    (TL, _UI_OLD, "        self._seen = seen = set()\n        self._items = []\n        items = []\n        for item in iterable:\n            if item not in seen:\n                seen.add(item)\n                items.append(item)", ['tools.Unique.__init__'], 'breaks'),
+    (TL, _UR_OLD, _UR_LOOP % ("            if i not in ignore and i not in seen:\n                seen.add(i)\n                result.append(i)", 'seen, result'), ['tools.Unique.rsub'], 'equivalent'),
+    (TL, _UR_OLD, _UR_LOOP % ("            if i in ignore:\n                continue\n            if i not in seen:\n                seen.add(i)\n                result.append(i)", 'seen, result'), ['tools.Unique.rsub'], 'equivalent'),
+    (TL, _UR_OLD, _UR_LOOP % ("            if i not in seen:\n                seen.add(i)\n                result.append(i)", 'seen, result'), ['tools.Unique.rsub'], 'breaks'),
+    (TL, _UR_OLD, _UR_LOOP % ("            if i not in ignore and i not in seen:\n                ignore.add(i)\n                result.append(i)", 'seen, result'), ['tools.Unique.rsub'], 'breaks'),
+    (TL, _UR_OLD, _UR_LOOP % ("            if i not in ignore or i not in seen:\n                seen.add(i)\n                result.append(i)", 'seen, result'), ['tools.Unique.rsub'], 'breaks'),
+    (TL, _UR_OLD, _UR_LOOP % ("            if i not in ignore and i not in seen:\n                seen.add(i)\n                result.append(i)", 'seen, []'), ['tools.Unique.rsub'], 'breaks'),
+    (TL, _UR_OLD, _UR_LOOP % ("            if i not in ignore and i not in seen:\n                seen.add(i)\n                result.append(i)", 'ignore, result'), ['tools.Unique.rsub'], 'breaks'),
+    # -- tools.Unique.issuperset: all(map(...)) spelled as a loop with a flag and `break` (break in a contract for-loop; a name assigned
+    #    only in front of the break keeps its value at the loop head: engine.names_reaching_head)
+    (TL, _SUP_OLD, _sup("            if item not in self._seen:\n                result = False\n                break\n"), ['tools.Unique.issuperset'], 'equivalent'),
+    (TL, _SUP_OLD, _sup("            if item in self._seen:\n                continue\n            result = False\n            break\n"), ['tools.Unique.issuperset'], 'equivalent'),
+    (TL, _SUP_OLD, _sup("            if item not in self._seen:\n                break\n"), ['tools.Unique.issuperset'], 'breaks'),
+    (TL, _SUP_OLD, _sup("            if item in self._seen:\n                result = False\n                break\n"), ['tools.Unique.issuperset'], 'breaks'),
+    (TL, _SUP_OLD, _sup("            if item not in self._seen:\n                result = False\n                break\n", init='False'), ['tools.Unique.issuperset'], 'breaks'),
+    (TL, _SUP_OLD, _sup("            break\n            if item not in self._seen:\n                result = False\n"), ['tools.Unique.issuperset'], 'breaks'),
+    (TL, _SUP_OLD, _sup("            if item not in self._seen:\n                result = False\n            break\n"), ['tools.Unique.issuperset'], 'breaks'),
+    (TL, _SUP_OLD, _sup("            if item not in self._seen:\n                result = False\n                break\n", ret='not result'), ['tools.Unique.issuperset'], 'breaks'),
+    (TL, _SUP_OLD, _sup("            if item not in self._seen:\n                result = False\n                break\n            result = True\n", init='False'), ['tools.Unique.issuperset'], 'breaks'),
+    # -- lindig.lattice: `if k in mapping: use(mapping[k]) else: new` spelled `try: v = mapping[k] except KeyError: new else: use(v)`
+    #    (A-EXC: a key that may be absent is an obligation unless the code catches the KeyError -- engine.catches, lib.key_present)
+    (LI, _LIN_OLD, _lin(), ['lindig.lattice'], 'equivalent'),
+    (LI, _LIN_OLD, _lin(exc='LookupError'), ['lindig.lattice'], 'equivalent'),
+    (LI, _LIN_OLD, "            try:\n                mapping[n_extent][3].append(extent)\n            except KeyError:\n" + _LIN_NEW, ['lindig.lattice'], 'equivalent'),
+    (LI, _LIN_OLD, _lin(handler="                known = None\n                known[3].append(extent)\n", els=_LIN_NEW), ['lindig.lattice'], 'breaks'),
+    (LI, _LIN_OLD, _lin(look='mapping[extent]'), ['lindig.lattice'], 'breaks'),
+    (LI, _LIN_OLD, _lin(handler="                mapping[n_extent] = neighbor = (n_extent, n_intent, [], [extent])\n"), ['lindig.lattice'], 'breaks'),
+    (LI, _LIN_OLD, _lin(els="                known[2].append(extent)\n"), ['lindig.lattice'], 'breaks'),
+    (LI, _LIN_OLD, "            try:\n                known = mapping[n_extent]\n            except KeyError:\n" + _LIN_NEW, ['lindig.lattice'], 'breaks'),
+    (LI, _LIN_OLD, _lin(exc='ValueError'), ['lindig.lattice'], 'breaks'),
+    # -- Lattice.__init__: `for index, c in enumerate(concepts)` spelled `index = 0; while index < len(concepts): c = concepts[index]; ...;
+    #    index += 1` -- the clause of the for-loop runs on the index spelling (engine.exec_index_while, obligations `index-range`)
+    (LT, _LIW_OLD, _liw(), ['lattices.__init__'], 'equivalent'),
+    (LT, _LIW_OLD, _liw(init="        n_concepts = len(concepts)\n        index = 0\n", test="index < n_concepts", step="            index = index + 1\n"), ['lattices.__init__'], 'equivalent'),
+    (LT, _LIW_OLD, _liw(test="len(concepts) > index"), ['lattices.__init__'], 'equivalent'),
+    (LT, _LIW_OLD, _liw(init="        index = 1\n"), ['lattices.__init__'], 'breaks'),
+    (LT, _LIW_OLD, _liw(test="index < len(concepts) - 1"), ['lattices.__init__'], 'breaks'),
+    (LT, _LIW_OLD, _liw(test="index < len(concepts) + 1"), ['lattices.__init__'], 'breaks'),
+    (LT, _LIW_OLD, _liw(step="            index += 2\n"), ['lattices.__init__'], 'breaks'),
+    (LT, _LIW_OLD, _liw(fetch="            c = concepts[0]\n"), ['lattices.__init__'], 'breaks'),
+    (LT, _LIW_OLD, _liw(fetch="            c = concepts[index + 1]\n"), ['lattices.__init__'], 'breaks'),
+    (LT, _LIW_OLD, _liw(body=_LIW_BODY.replace("c.index = index", "c.index = index + 1")), ['lattices.__init__'], 'breaks'),
+    (LT, _LIW_OLD, _liw(body=_LIW_BODY.replace("key=longlex", "key=shortlex")), ['lattices.__init__'], 'breaks'),
+    # -- junctors.Relations.__init__: chain(unary, binary) handed to list.__init__ spelled as two loops of appends; the sort key as a
+    #    nested def (the contract states the CONTENT of the list: what __init__ got, then every iterable appended item by item, in order)
+    (JU, _REL_OLD, _rel(), ['junctors.Relations.__init__'], 'equivalent'),
+    (JU, _REL_OLD, _rel(init="", first="        if include_unary:\n            super().__init__(unary)\n        else:\n            super().__init__()\n"), ['junctors.Relations.__init__'], 'equivalent'),
+    (JU, _REL_OLD, _REL_CHAIN + "\n        def by_order(r):\n            return r.order\n\n        self.sort(key=by_order)\n", ['junctors.Relations.__init__'], 'equivalent'),
+    (JU, _REL_OLD, _rel(first="        for member in binary:\n            self.append(member)\n", second="        if include_unary:\n            for member in unary:\n                self.append(member)\n"), ['junctors.Relations.__init__'], 'breaks'),
+    (JU, _REL_OLD, _rel(first="        for member in unary:\n            self.append(member)\n"), ['junctors.Relations.__init__'], 'breaks'),
+    (JU, _REL_OLD, _rel(first="        if not include_unary:\n            for member in unary:\n                self.append(member)\n"), ['junctors.Relations.__init__'], 'breaks'),
+    (JU, _REL_OLD, _rel(second="        for member in binary:\n            self.append(member)\n            self.append(member)\n"), ['junctors.Relations.__init__'], 'breaks'),
+    (JU, _REL_OLD, _rel(second="        for member in binary:\n            self.append(member)\n            break\n"), ['junctors.Relations.__init__'], 'breaks'),
+    (JU, _REL_OLD, _rel(second="", sort="        self.sort(key=lambda r: r.order)\n        for member in binary:\n            self.append(member)\n"), ['junctors.Relations.__init__'], 'breaks'),
+    (JU, _REL_OLD, _rel(second="        for member in combos:\n            self.append(member)\n"), ['junctors.Relations.__init__'], 'breaks'),
+    (JU, _REL_OLD, _REL_CHAIN + "\n        def by_order(r):\n            return r.index\n\n        self.sort(key=by_order)\n", ['junctors.Relations.__init__'], 'breaks'),
+    (JU, _REL_OLD, _REL_CHAIN + "\n        def by_order(r):\n            return -r.order\n\n        self.sort(key=by_order)\n", ['junctors.Relations.__init__'], 'breaks'),
+    # -- table.dump_file: the cell text chosen by indexing a pair with a bool; the (object, row) pair unpacked in the loop body
+    (FTB, _TDF_OLD, _tdf(), _TDF, 'equivalent'),
+    (FTB, _TDF_OLD, _tdf(cell="'X' if b else ''", head="    for row in zip(objects, bools):\n        o, intent = row\n"), _TDF, 'equivalent'),
+    (FTB, _TDF_OLD, _tdf(cell="'X' if b else ''", head="    for row in zip(objects, bools):\n", use="row[0]", it="row[1]"), _TDF, 'equivalent'),
+    (FTB, _TDF_OLD, _tdf(cell="('X', '')[bool(b)]"), _TDF, 'breaks'),
+    (FTB, _TDF_OLD, _tdf(cell="('', 'X')[not b]"), _TDF, 'breaks'),
+    (FTB, _TDF_OLD, _tdf(cell="('', 'x')[bool(b)]"), _TDF, 'breaks'),
+    (FTB, _TDF_OLD, _tdf(cell="('', 'X')[1]"), _TDF, 'breaks'),
+    (FTB, _TDF_OLD, _tdf(cell="'X' if b else ''", head="    for row in zip(objects, bools):\n        intent, o = row\n"), _TDF, 'breaks'),
+    (FTB, _TDF_OLD, _tdf(cell="'X' if b else ''", head="    for row in zip(objects, bools):\n", use="row[1]", it="row[1]"), _TDF, 'breaks'),
+    # -- table.dump_file: the row lines computed by a module-level generator helper consumed by the `for` loop of the contract (the one-loop
+    #    form of call_generator_helper: the generator IS a generator expression); the chars unit reads the cell texts from the helper
+    (FTB, _TDG_OLD, _tdg(), _TDF, 'equivalent'),
+    (FTB, _TDG_OLD, _tdg(helper=_TDG_HELPER.replace("(o,) + ", "('',) + ")), _TDF, 'breaks'),
+    (FTB, _TDG_OLD, _tdg(helper=_TDG_HELPER.replace("'X' if b else ''", "'' if b else 'X'")), _TDF, 'breaks'),
+    (FTB, _TDG_OLD, _tdg(helper="    for o, intent in zip(objects, bools):\n        if intent:\n            yield tmpl % ((o,) + tuple('X' if b else '' for b in intent))"), _TDF, 'breaks'),
+    (FTB, _TDG_OLD, _tdg(loop="    for line in iter_row_lines(tmpl, objects, bools):\n        write(line)\n        write(line)\n"), _TDF, 'breaks'),
+    (FTB, _TDG_OLD, _tdg(loop="    for line in iter_row_lines(tmpl, bools, objects):\n        write(line)\n"), _TDF, 'breaks'),
+    (FTB, _TDG_OLD, _tdg(loop="    lines = iter_row_lines(tmpl, objects, bools)\n    for line in lines:\n        write(line)\n"), _TDF, 'breaks'),      # a generator object with a name: not executed in place (an alarm, not a defect)
+    # -- table.load_file: header and object lines from a straight-line generator helper collected by tuple() (run to exhaustion at the call)
+    (FTB, _TLF_OLD, _tls(), _TLF, 'equivalent'),
+    (FTB, _TLF_OLD, _tls(helper="    yield lines[1:]\n    yield lines[0]"), _TLF, 'breaks'),
+    (FTB, _TLF_OLD, _tls(helper="    yield lines[0]\n    yield lines[2:]"), _TLF, 'breaks'),
+    (FTB, _TLF_OLD, _tls(helper="    yield lines[1]\n    yield lines[1:]"), _TLF, 'breaks'),
+    (FTB, _TLF_OLD, _tls(order="object_lines, header"), _TLF, 'breaks'),
+    (FTB, _TLF_OLD, _tls(helper="    yield lines[0]\n    yield lines[1:]\n    yield lines"), _TLF, 'breaks'),
+    # -- junctors.RelationMeta.__init__: the loop over the literal table as an index loop (no clause: concrete tests, engine.unroll_while)
+    (JU, _RMI_OLD, _rmi(), _META, 'equivalent'),
+    (JU, _RMI_OLD, _rmi(init="        index = 1\n"), _META, 'breaks'),
+    (JU, _RMI_OLD, _rmi(test="index < len(obj_flags) - 1"), _META, 'breaks'),
+    (JU, _RMI_OLD, _rmi(fetch="obj_flags[index - 1]"), _META, 'breaks'),
+    (JU, _RMI_OLD, _rmi(step="            index += 2\n"), _META, 'breaks'),
 ]
 
 
